@@ -37,6 +37,18 @@
  * util/warnp.c is not linked: the parsers warn on every malformed input and the
  * text would swamp the logs.  The replacements still walk the format and its
  * arguments (so a %s of an unterminated buffer is seen by ASan), then drop it. */
+#ifdef C15_REAL_WARNP
+/* The binary of the sub "syslog" links the real util/warnp.c and runs it in syslog mode (a daemon's configuration). */
+unsigned long shim_warn_count(void) { return (0); }
+void
+shim_syslog_mode(int on)
+{
+
+	warnp_setprogname("c15");
+	warnp_syslog(on);
+}
+#else
+void shim_syslog_mode(int on) { (void)on; }
 static unsigned long warn_calls;
 
 void
@@ -74,6 +86,7 @@ shim_warn_count(void)
 
 	return (warn_calls);
 }
+#endif /* !C15_REAL_WARNP */
 
 #define FAIL(...) do {							\
 	snprintf(msg, SHIM_MSG, __VA_ARGS__);				\
